@@ -68,3 +68,6 @@ PLAN["C19"] = dict(quick=["tasks"], thorough=["tasks"])
 
 SUITES["conv"] = dict(mc="MC_Seq")
 PLAN["C14"] = dict(quick=["conv"], thorough=["conv"])
+
+PLAN["C18"] = dict(quick=["two", "flat", "subs", "fin", "subject", "share", "time7", "tsubs"],
+                   thorough=["unary", "chain2", "two", "flat", "subs", "fin", "subject", "share", "group", "time7", "time9", "tsubs", "retire"])
